@@ -101,8 +101,18 @@ def _ser(s):
 
 
 def _params(f):
-    """fitted parameters of a leaf, as a JSON-able value (None when the class exposes none)"""
-    for a in ("p_", "window_length_"):
+    """fitted parameters, as a JSON-able value (None when the class exposes none); for composites
+    the parameters of every part"""
+    if getattr(f, "forecasters_", None) is not None:            # ensemble, stacking
+        r = ["parts", [_params(m) for m in f.forecasters_]]
+        if getattr(f, "final_regressor_", None) is not None:
+            r.append(["bias", float_ratio(getattr(f.final_regressor_, "bias_", 0.0))])
+        return r
+    if getattr(f, "_forecaster", None) is not None and hasattr(f, "selected_forecaster"):
+        return ["selected", _params(f._forecaster)]
+    if getattr(f, "steps_", None) is not None:                   # pipeline
+        return ["steps", [_params(e) for _, e in f.steps_]]
+    for a in ("p_", "window_length_", "c_"):
         if hasattr(f, a):
             return [a, float_ratio(getattr(f, a))]
     if hasattr(f, "regressor_"):
@@ -140,7 +150,7 @@ def _preds(r, fhcv):
     return [[int(r.index[0]) - fhcv[0], _ser(r)]]
 
 
-_ERRS = (ValueError,)
+_ERRS = (ValueError, KeyError, IndexError, TypeError, NotImplementedError)
 PROBE_FH = [1, 2]
 
 
@@ -589,6 +599,12 @@ def gen_cases(rng, tier):
 
 
 def shrink(case):
+    for d in _shrink(case):
+        d["first_refit_before_fh"] = _first_refit_before_fh(d)
+        yield d
+
+
+def _shrink(case):
     c = dict(case)
     ops = c["ops"]
     if len(ops) > 1:
